@@ -311,3 +311,66 @@ func init() {
 			return []Obligation{mkOb(c, "PKG.new-uses-lang", u, "create then import", defs[0].Call, Violated, "a return is reachable after the new package was registered and before the language package was imported: a later in-package finds it existing and never imports the language", true)}
 		}})
 }
+
+func init() {
+	register(&Rule{ID: "BIND.fresh-scope", Floor: 2,
+		Doc: "in the binder every parameter is bound (Put) in an environment that is, on every path, the result of Copy() of the callee's defining environment made during this call: each activation has a private parameter scope, the defining environment itself is never written",
+		Run: func(c *Ctx) []Obligation {
+			fn, fd, pkg := c.LookupFunc("lisp.(*LEnv).bind")
+			put := c.LookupMethod("lisp.LEnv.Put")
+			cp := c.LookupMethod("lisp.LEnv.Copy")
+			fenv := c.LookupMethod("lisp.LVal.funEnv")
+			if fn == nil || put == nil || cp == nil || fenv == nil {
+				return []Obligation{anchorMissing("BIND.fresh-scope", "bind / LEnv.Put / LEnv.Copy / funEnv")}
+			}
+			u := FuncUnit{fn, fd, pkg}
+			info := pkg.TypesInfo
+			var obs []Obligation
+			ord := &ordinal{}
+			for _, bu := range bodiesOf(fd) {
+				for _, ce := range callsIn(bu.Body, false) {
+					if originOf(Callee(info, ce)) != put {
+						continue
+					}
+					se, ok := ast.Unparen(ce.Fun).(*ast.SelectorExpr)
+					if !ok {
+						continue
+					}
+					construct := ord.next("bind parameter via Put")
+					o := identObj(info, se.X)
+					good := false
+					if o != nil {
+						// every assignment to the receiver variable is X.funEnv().Copy()
+						n, okn := 0, 0
+						ast.Inspect(fd.Body, func(m ast.Node) bool {
+							as, isAs := m.(*ast.AssignStmt)
+							if !isAs || len(as.Lhs) != len(as.Rhs) {
+								return true
+							}
+							for i, l := range as.Lhs {
+								if identObj(info, l) != o {
+									continue
+								}
+								n++
+								if cc, ok := ast.Unparen(as.Rhs[i]).(*ast.CallExpr); ok && originOf(Callee(info, cc)) == cp {
+									if s2, ok := ast.Unparen(cc.Fun).(*ast.SelectorExpr); ok {
+										if inner, ok := ast.Unparen(s2.X).(*ast.CallExpr); ok && originOf(Callee(info, inner)) == fenv {
+											okn++
+										}
+									}
+								}
+							}
+							return true
+						})
+						good = n > 0 && n == okn
+					}
+					if good {
+						obs = append(obs, mkOb(c, "BIND.fresh-scope", u, construct, ce, Proved, "receiver is fun.funEnv().Copy() on every assignment", true))
+					} else {
+						obs = append(obs, mkOb(c, "BIND.fresh-scope", u, construct, ce, Violated, "a parameter is bound in an environment that is not a per-call copy of the function's defining environment: activations (or closures captured in them) would share parameter bindings", true))
+					}
+				}
+			}
+			return obs
+		}})
+}
